@@ -169,7 +169,7 @@ def particle_cases(ctx, rnd, n_per_model):
     from tf_pwa.utils import create_test_config
     cases = []
     for model in MODELS:
-        for k in range(n_per_model):
+        for k in range(n_per_model + (2 if model == "BWR_below" else 0)):  # two sub-threshold BWR_below cases also in the quick tier
             J = rnd.choice([0, 1, 2, 3]) if model not in ("GS_rho",) else 1
             P = 1 if J % 2 == 0 else -1
             mB, mC, mD = [rnd.uniform(0.08, 0.2) for _ in range(3)]
@@ -177,7 +177,7 @@ def particle_cases(ctx, rnd, n_per_model):
                 mB, mC = 0.13957039, 0.1349768
             below = model in ("BWR2", "BWR_below", "BWR_normal") and k % 2 == 1
             m0 = rnd.uniform(mB + mC + 0.05, 0.85) if not below else rnd.uniform(0.1, mB + mC - 0.01)
-            if below and model in ("BWR2", "BWR_normal"):
+            if below and model in ("BWR2", "BWR_normal", "BWR_below"):  # BWR_below added after seeded change C15_t1 was caught by a single case
                 m0 = random.Random(ctx.seed * 7 + 131 * k + len(model)).uniform(0.08, 0.19)   # (own stream) really below the threshold of create_test_config's daughters (0.1 + 0.1), the docstring's example
             g0 = rnd.uniform(0.02, 0.3)
             params = {"J": J, "P": P, "mass": m0, "width": g0}
